@@ -803,7 +803,7 @@ def _under_action(root, leaf):
 def _row_loop(ctx, m):
     FG = 'hszinc/grid.py'
     try:
-        fn = m.func('grid', 'Grid.filter')
+        fn = m.func('grid', 'Grid.filter', 'flat')
     except AnalysisError as e:
         ctx.error('C11.D6', str(e))
         return
